@@ -10,6 +10,7 @@ PoolDef == << Base,
               [Base EXCEPT !.inputs = << <<7, 5>>, <<5, 9>>, <<9, 8>> >>, !.output = <<7, 8>>,
                            !.dims = (5 :> 3) @@ (7 :> 2) @@ (8 :> 3) @@ (9 :> 2)],     \* relabelled: same meaning
               [Base EXCEPT !.inputs = << <<2, 3>>, <<1, 2>>, <<3, 4>> >>],            \* tensors reordered
-              [Base EXCEPT !.inputs = << <<1, 2>>, <<2, 3>>, <<4, 3>> >>] >>          \* axes of one tensor swapped
+              [Base EXCEPT !.inputs = << <<1, 2>>, <<2, 3>>, <<4, 3>> >>],            \* axes of one tensor swapped
+              [Base EXCEPT !.dims = <<3, 2, 3, 2>>] >>                              \* sizes swapped between neighbouring labels
 Pool7 == 1..7
 ====
